@@ -21,7 +21,7 @@ import (
 func init() {
 	register(&Property{
 		ID:       "C06",
-		Patterns: []string{"./sql", "./sql/expression", "./sql/hash", "./sql/types", "./sql/plan", "./sql/analyzer"},
+		Patterns: []string{"./sql", "./sql/expression", "./sql/hash", "./sql/types", "./sql/plan", "./sql/analyzer", "./sql/planbuilder"},
 		Explanation: "Some of the equivalences in the property are finite three-valued tables visible in the code; those are read from the source by folding over abstract outcomes and compared entry by entry: " +
 			"(CMP) Equals/GreaterThanOrEqual/LessThanOrEqual/GreaterThan/LessThan.Eval map the outcomes of Compare (<, =, >, NULL operand, and for tuple equality 'unequal with a NULL element') to the SQL truth value, and comparison.Compare reports a NULL operand as (0, ErrNilOperand); " +
 			"(IN) InTuple.Eval, folded over {left NULL, left value} x lists of one and two elements of kinds {equal, less, greater, NULL-typed, NULL-valued, tuple-with-NULL equal elsewhere, tuple-with-NULL unequal elsewhere}, equals the Kleene OR of the folded Equals table applied to each element, and NewNotInTuple is Not(InTuple(left, right)); " +
@@ -30,28 +30,29 @@ func init() {
 			"(HG) the rewrite in applyHashIn happens only for an InTuple whose left operand passes hasSingleOutput and whose right operand passes isStatic and isConsistentType, with the operands passed on in the same positions; " +
 			"(BTW) Between.Eval, folded over the 16 pairs of outcomes of comparing the value with the lower and the upper bound, equals the Kleene AND of the folded tables of value >= lower and value <= upper; " +
 			"(SQ) InSubquery.Eval, folded over {left NULL, value} x {no rows, rows without / with NULL, match, match and NULL, no match with NULL, no match}, has the table of the disjunction of equalities over the subquery's rows (FALSE over no rows even for a NULL left operand), NewNotInSubquery is Not(InSubquery(left, right)), and ExistsSubquery.Eval passes the row test through two-valued; " +
+			"(PB) Builder.buildComparison maps each operator constant (=, <, <=, >, >=, <=>, !=, IN and NOT IN over a tuple and over a subquery) and Builder.buildScalar's RangeCond arm maps BETWEEN / NOT BETWEEN to the expression of that name with the operands in position (value, lower, upper); " +
 			"(PN) every arm of pushNotFiltersHelper (NOT NOT, De Morgan, negated comparisons, NOT BETWEEN => < OR >) returns an expression with the same three-valued table as its input.",
 		NotCovered: "equality of results of arbitrary equivalent statements; IN/EXISTS subqueries against their semi-/anti-join formulations (the rewrite in unnestInSubqueries / unnestExistsSubqueries carries no nullability guard to name: NOT IN becomes an anti join on an Equals filter and the NULL behaviour is the join executor's, C01's subject; only the expression side's table is read here), tuple-valued IN (subquery), hash collisions in the subquery cache; join conditions in ON versus WHERE; CTE / derived-table inlining; constant folding versus column evaluation; " +
-			"the value of Compare itself (type coercion, collations) and whether hashing and comparison identify the same values (newInMap/HashOfSimple versus Compare: C07/C29); the element set newInMap hashes (only its has-NULL flag is read); lists longer than two elements; the evaluation of the elements themselves",
+			"the value of Compare itself (type coercion, collations) and whether hashing and comparison identify the same values (newInMap/HashOfSimple versus Compare: C07/C29); the element set newInMap hashes (only its has-NULL flag is read); lists longer than two elements; the literal widening in typeExpandComparisonLiteral and the bind-variable typing deferred in buildScalar (taken as position-preserving); the evaluation of the elements themselves",
 		Technique: "finite-domain abstract interpretation (AST folding over abstract compare outcomes and truth values) + composition of the folded tables",
 		Run:       func(c *Ctx) { runC06(c, c06Real) },
 		Fixture: func(c *Ctx, fx *Prog) {
-			expectFixture(c, fx, "c06: IN forgetting a NULL-valued element, hash-IN ignoring the NULL flag, BETWEEN with swapped bounds, Compare treating one NULL operand as a value, newInMap not flagging a NULL literal, NULL IN (no rows) answering NULL, rewrite without the isStatic guard, NOT(>) pushed down to < must be reported", c06FixtureWant, func(fc *Ctx) { runC06(fc, c06Fix) })
+			expectFixture(c, fx, "c06: IN forgetting a NULL-valued element, hash-IN ignoring the NULL flag, BETWEEN with swapped bounds, Compare treating one NULL operand as a value, newInMap not flagging a NULL literal, NULL IN (no rows) answering NULL, planbuilder exchanging the BETWEEN bounds / building <= as < / NOT IN (subquery) as IN, rewrite without the isStatic guard, NOT(>) pushed down to < must be reported", c06FixtureWant, func(fc *Ctx) { runC06(fc, c06Fix) })
 		},
-		FixturePkgs: []string{"./testdata/c06/expr", "./testdata/c06/an"},
+		FixturePkgs: []string{"./testdata/c06/expr", "./testdata/c06/an", "./testdata/c06/pb"},
 	})
 }
 
 // c06Anchors names the packages that play each role (the fixture uses one package for the first four).
 type c06Anchors struct {
-	ex, ty, hs, sq, an, pl string
+	ex, ty, hs, sq, an, pl, pb string
 	floors             map[string]int
 	outOfRangeDead     bool // named exception for HashInTuple.Eval's out-of-range arm (real tree only)
 }
 
-var c06Real = c06Anchors{ex: "sql/expression", ty: "sql/types", hs: "sql/hash", sq: "sql", an: "sql/analyzer", pl: "sql/plan",
-	floors: map[string]int{"C06-CMP": 25, "C06-IN": 113, "C06-HIN": 14, "C06-HF": 17, "C06-HG": 9, "C06-BTW": 16, "C06-PN": 8, "C06-SQ": 11}, outOfRangeDead: true}
-var c06Fix = c06Anchors{ex: "testdata/c06/expr", ty: "testdata/c06/expr", hs: "testdata/c06/expr", sq: "testdata/c06/expr", an: "testdata/c06/an", pl: "testdata/c06/expr",
+var c06Real = c06Anchors{ex: "sql/expression", ty: "sql/types", hs: "sql/hash", sq: "sql", an: "sql/analyzer", pl: "sql/plan", pb: "sql/planbuilder",
+	floors: map[string]int{"C06-CMP": 25, "C06-IN": 113, "C06-HIN": 14, "C06-HF": 17, "C06-HG": 9, "C06-BTW": 16, "C06-PN": 8, "C06-SQ": 11, "C06-PB": 13}, outOfRangeDead: true}
+var c06Fix = c06Anchors{ex: "testdata/c06/expr", ty: "testdata/c06/expr", hs: "testdata/c06/expr", sq: "testdata/c06/expr", an: "testdata/c06/an", pl: "testdata/c06/expr", pb: "testdata/c06/pb",
 	floors: map[string]int{}}
 
 // c06FixtureWant: the planted defects of testdata/c06 (each entry verified by hand against the planted change).
@@ -82,6 +83,9 @@ var c06FixtureWant = []string{
 	"C06-IN:InTuple.Eval(left=value,list=[greater,NULL-valued])",
 	"C06-IN:InTuple.Eval(left=value,list=[less,NULL-valued])",
 	"C06-IN:InTuple.Eval(left=value,list=[tuple-NULL-unequal,NULL-valued])",
+	"C06-PB:buildComparison/LessEqualStr",
+	"C06-PB:buildComparison/NotInStr/subquery",
+	"C06-PB:buildScalar/RangeCond/BetweenStr",
 	"C06-PN:pushNotFiltersHelper/NOT(GreaterThan)",
 	"C06-SQ:InSubquery.Eval(left=NULL,rows=no-rows)",
 }
@@ -158,7 +162,7 @@ func c06KNot(a int) int {
 // c06World carries the resolved anchors and the distinguished symbols of the abstraction.
 type c06World struct {
 	c                  *Ctx
-	ex, ty, hs, sq, an, pl *packages.Package
+	ex, ty, hs, sq, an, pl, pb *packages.Package
 	nilSym             *MSym
 	errNil             *MSym // the error value ErrNilOperand.New() produces
 	errOther           *MSym // any other non-nil error
@@ -283,9 +287,10 @@ func runC06(c *Ctx, a c06Anchors) {
 	c.Rule("C06-HG", "applyHashIn rewrites only an InTuple that passes hasSingleOutput(left), isStatic(right), isConsistentType(right), operands kept in position", fl("C06-HG"))
 	c.Rule("C06-BTW", "Between.Eval over the 16 pairs of compare outcomes == Kleene AND of the folded tables of val >= lower and val <= upper", fl("C06-BTW"))
 	c.Rule("C06-SQ", "InSubquery.Eval over {left NULL/value} x {no rows, match, match and NULL, no match with NULL, no match} == disjunction of equalities over the rows; NewNotInSubquery == Not(InSubquery(left,right)); ExistsSubquery.Eval passes the row test through", fl("C06-SQ"))
+	c.Rule("C06-PB", "planbuilder: each comparison operator / BETWEEN / IN / NOT IN builds the expression of that name with the operands in position", fl("C06-PB"))
 	c.Rule("C06-PN", "each arm of pushNotFiltersHelper returns an expression with the same three-valued table as its input", fl("C06-PN"))
 
-	w := &c06World{c: c, ex: c.P.Pkg(a.ex), ty: c.P.Pkg(a.ty), hs: c.P.Pkg(a.hs), sq: c.P.Pkg(a.sq), an: c.P.Pkg(a.an), pl: c.P.Pkg(a.pl)}
+	w := &c06World{c: c, ex: c.P.Pkg(a.ex), ty: c.P.Pkg(a.ty), hs: c.P.Pkg(a.hs), sq: c.P.Pkg(a.sq), an: c.P.Pkg(a.an), pl: c.P.Pkg(a.pl), pb: c.P.Pkg(a.pb)}
 	if w.ex == nil || w.ty == nil || w.hs == nil || w.sq == nil || w.an == nil || w.pl == nil {
 		c.Undecided("C06-IN", "packages", 0, "anchor packages not loaded")
 		return
@@ -317,6 +322,7 @@ func runC06(c *Ctx, a c06Anchors) {
 	c06Between(w)
 	c06PushNot(w)
 	c06Subquery(w)
+	c06Build(w)
 }
 
 // ---- CMP ---------------------------------------------------------------------------------
